@@ -105,6 +105,8 @@ impl Check for C19 {
         cfg.f_batch_unawaited = true;
         // (the C-side host of the driver comparison does not call script functions)
         cfg.f_host_resolver = false;
+        // (the C API registers native internal modules only: no lib:util in the C drivers)
+        cfg.f_lib = false;
         // the C-side order() is a native callback taking an object payload: wrapped holes only
         let variant = if holes == 0 { HoleVariant::Sync } else { HoleVariant::Order };
         let mut case = ProgCase::generate(rng, cfg, variant, "v");
